@@ -40,6 +40,10 @@ CLAIMS = {
    text='Partial: the data clauses are decided exhaustively (every iCDF table reaching a coder call is strictly decreasing/zero-terminated from every offset; PVQ U table equals the exact recurrence, V<2^32 and in-row for every reachable (N,K); pulse cache equals ceil(8 log2 V)-1 and is monotone; Laplace parameters within preconditions). Bijectivity of cwrsi/icwrs and Laplace tiling are NOT decided.',
    note=TRUST + 'Python port of log2_frac as generator oracle for the pulse cache.',
    technique='table predicates over evaluated initialisers + points-to resolution of table arguments + dominance for stack-built tables'),
+ 'C19': dict(category='other',
+   text='Partial: the soft clipper\'s degenerate-argument guard dominates every store; inside the per-channel loop all sample subscripts are multiples of the stride C from base _x+c, declip_mem is touched only at [c] and no scalar carries over between channel iterations (channel independence); the decoder gain is read only by its ctl arms and by one region of opus_decode_frame whose only effects are stores into pcm samples (non-interference with return value, final range and state); the soft_clip flag only selects clipper call vs zeroing its memory. Output range, pass-through exactness, sign preservation and the gain value are NOT decided (numeric).',
+   note=TRUST,
+   technique='control-dependence region effects (non-interference), stride-form subscript rule, may-stale dataflow inside the channel loop, dominance guards'),
 }
 
 NA_REASON = {
